@@ -1,8 +1,220 @@
 import Karp.Driver.Proto
+import Karp.Spec.NoEffect
+import Karp.Model.Effects
+import Karp.Model.EffectFacts
 
+/-
+C18 driver: the harness ran REAL simulations / provisioning passes / deep copies and digested the observable world before
+and after.  Here
+  * `spec`    = the property's verdict on what the real code did (`Karp/Spec/NoEffect.lean`),
+  * `allowed` = whether what the real code did is within the *model*: the changed components lie in the footprint derived
+                from the regenerated write-effect facts (`Karp/Model/EffectFacts.lean`) and the nominations / pod
+                bookkeeping are exactly what the model of `Results.Record` + `MarkPodSchedulingDecisions` predicts.
+-/
 namespace Karp.Driver.C18
-open Lean Karp.Driver
+open Lean Karp.Driver Karp.Spec.NoEffect
 
-def handle : Handler := fun op _ _ => .error s!"unknown op {op}"
+def entry (j : Json) : Except String Entry := do
+  pure { sec := ← strF j "s", obj := ← strF j "o", fld := ← strF j "f", dig := ← strF j "d" }
+
+def snap (j : Json) : Except String Snap := listOf entry j
+
+def nodeVal (j : Json) : Except String NodeVal := do
+  pure { providerID := ← strF j "providerID", name := ← strF j "name", nodeClaim := ← strF j "nodeClaim",
+         nominatedUntil := ← intF j "nominatedUntil", marked := ← boolF j "marked" }
+
+def podVal (j : Json) : Except String PodVal := do
+  pure { key := ← strF j "key", ack := ← intF j "ack", attempted := ← intF j "attempted", schedulable := ← intF j "schedulable",
+         healthy := ← intF j "healthy", nodeClaim := ← strF j "nodeClaim" }
+
+def live (j : Json) : Except String Live := do
+  pure { nodes := ← listOf nodeVal (← fld j "nodes"), pods := ← listOf podVal (← fld j "pods") }
+
+def placedPod (j : Json) : Except String PlacedPod := do
+  pure { name := ← strF j "name", bound := ← boolF j "bound" }
+
+def existingPlacement (j : Json) : Except String ExistingPlacement := do
+  pure { providerID := ← strF j "providerID", nodeClaim := ← strF j "nodeClaim", pool := ← strF j "pool",
+         pods := ← listOf placedPod (← fld j "pods") }
+
+def claimPlacement (j : Json) : Except String ClaimPlacement := do
+  pure { pool := ← strF j "pool", pods := ← listOf placedPod (← fld j "pods") }
+
+def getIdx (l : List α) (i : Nat) (what : String) : Except String α :=
+  match l[i]? with
+  | some x => pure x
+  | none => throw s!"{what}: index {i} out of range"
+
+/-- components of a snapshot that belong to a live region of the model footprint (a field of the cluster / of a node), or
+    are derived from one (the accessors that read the nomination) -/
+def inFootprint (fp : List (String × String)) (e : Entry) : Bool :=
+  fp.contains (e.sec, e.fld) ||
+  (e.sec == "accessor" && (e.fld == "Nominated" || e.fld == "IsNodeNominated") && fp.contains ("node", "nominatedUntil"))
+
+def showEntries (es : List Entry) : String :=
+  String.intercalate ", " ((es.take 6).map Entry.show) ++ (if es.length > 6 then s!" … ({es.length} components)" else "")
+
+/-- the components the two recorded findings move (see known_findings.json): they are looked at last, so that any other
+    change in the same run decides the signature -/
+def knownLeakComponent (e : Entry) : Bool :=
+  e.sec == "input" && (e.fld == "pod.topologySpreadConstraints" || e.fld == "pod.preferredNodeAffinity.order")
+
+/-- the offender that classifies a violation: the first one that is not a recorded finding's component, if any -/
+def pickOffender (es : List Entry) : Option Entry :=
+  match es.find? (fun e => !knownLeakComponent e) with
+  | some e => some e
+  | none => es.head?
+
+/-- signature of a violation: which kind of component moved -/
+def sigOf (pfx : String) (e : Entry) : String :=
+  -- default constraints stamped onto a shared pod that declared none ("0:<digest>" before) vs. any other change
+  if e.sec == "input" && e.fld == "pod.topologySpreadConstraints" then
+    s!"{pfx}:input:pod.topologySpreadConstraints:{if e.dig.startsWith "0:" then "stamped-on-empty" else "changed"}"
+  else
+  if e.sec == "api" then s!"{pfx}:api:{(e.obj.splitOn "/").headD ""}"
+  else if e.sec == "provider" then s!"{pfx}:provider:{if e.fld.startsWith "Offerings" then "Offerings" else e.fld}"
+  else s!"{pfx}:{e.sec}:{e.fld}"
+
+/-- verdict on one simulation run: (violates the property, reason, signature, is a recorded finding's component only) -/
+def judgeSim (now : Int) (ignored : List String) (k : Nat) (cls : String) (run : Run) : Option (String × String × Bool) :=
+  if simulationOk now ignored run then none
+  else if run.writes != 0 then
+    some (s!"run {k} ({cls}): the simulation made {run.writes} write call(s) on the API client", "sim:client-writes", false)
+  else
+    let ch := (changed run.before run.after).filter (fun e => !simulationMayChange (!ignored.isEmpty) e)
+    match pickOffender ch with
+    | some e => some (s!"run {k} ({cls}): the simulation changed {showEntries ch}", sigOf "sim" e, knownLeakComponent e)
+    | none =>
+      let dn := (run.valsBefore.nodes.zip run.valsAfter.nodes).filter (fun x => x.1 != x.2)
+      let dp := (run.valsBefore.pods.zip run.valsAfter.pods).filter (fun x => x.1 != x.2)
+      some (s!"run {k} ({cls}): nominations / deletion marks / pod bookkeeping moved in a way a simulation may not move them (refused pods {ignored}); nodes before→after {repr (dn.take 3)}; pods before→after {repr (dp.take 3)}",
+            "sim:values", false)
+
+def simulate (_inp impl : Json) : Except String Resp := do
+  if (fldOpt impl "snaps").isNone then
+    return { spec := some false, why := "implementation produced no snapshots (panic / harness error?)",
+             extra := some (jObj [("signature", jStr "sim:no-output")]) }
+  let now ← intF impl "now"
+  let ignored ← strList (← fld impl "ignored")
+  let snaps ← listOf snap (← fld impl "snaps")
+  let vals ← listOf live (← fld impl "vals")
+  let runs ← arrF impl "runs"
+  let fp := Karp.EffectFacts.footprint .sim
+  let mut verdicts : List (String × String × Bool) := []
+  let mut allowed := true
+  let mut whyModel := ""
+  let mut k := 0
+  for r in runs do
+    let b ← natF r "before"
+    let a ← natF r "after"
+    let run : Run := { before := ← getIdx snaps b "snaps", after := ← getIdx snaps a "snaps",
+                       valsBefore := ← getIdx vals b "vals", valsAfter := ← getIdx vals a "vals", writes := ← natF r "writes" }
+    let cls ← strF r "class"
+    -- the property's verdict
+    match judgeSim now ignored k cls run with
+    | some v => verdicts := verdicts ++ [v]
+    | none => pure ()
+    -- the model's verdict: inside the static footprint, values as the model of GetPendingPods predicts
+    let outside := (changed run.before run.after).filter (fun e => !inFootprint fp e)
+    let predicted := Karp.Effects.simulationPass now ignored run.valsBefore
+    if allowed && (!outside.isEmpty || !(run.valsAfter == run.valsBefore || run.valsAfter == predicted)) then
+      allowed := false
+      whyModel := s!"run {k} ({cls}): outside the footprint of the write-effect facts: {showEntries outside}"
+    k := k + 1
+  -- a violation that is not one of the recorded findings decides the report
+  let chosen := match verdicts.find? (fun v => !v.2.2) with
+    | some v => some v
+    | none => verdicts.head?
+  match chosen with
+  | some (why, sig, _) =>
+    pure { allowed := some allowed, spec := some false, why := why, extra := some (jObj [("signature", jStr sig)]) }
+  | none => pure { allowed := some allowed, spec := some true, why := whyModel }
+
+def provision (_inp impl : Json) : Except String Resp := do
+  if (fldOpt impl "snaps").isNone then
+    return { spec := some false, why := "implementation produced no snapshots (panic / harness error?)",
+             extra := some (jObj [("signature", jStr "prov:no-output")]) }
+  let ignored ← strList (← fld impl "ignored")
+  let healthy ← strList (← fld impl "healthy")
+  let batch ← intF impl "batchMaxNs"
+  let snaps ← listOf snap (← fld impl "snaps")
+  let vals ← listOf live (← fld impl "vals")
+  let passes ← arrF impl "passes"
+  let fp := Karp.EffectFacts.footprint .sched
+  let mut specOk := true
+  let mut allowed := true
+  let mut why := ""
+  let mut sig := ""
+  let mut k := 0
+  for p in passes do
+    let b ← natF p "before"
+    let a ← natF p "after"
+    let now ← intF p "now"
+    let cls ← strF p "class"
+    let run : Run := { before := ← getIdx snaps b "snaps", after := ← getIdx snaps a "snaps",
+                       valsBefore := ← getIdx vals b "vals", valsAfter := ← getIdx vals a "vals", writes := ← natF p "writes" }
+    let o : Outcome := { existing := ← listOf existingPlacement (← fld p "existing"),
+                         claims := ← listOf claimPlacement (← fld p "claims"),
+                         errors := ← strList (← fld p "errors") }
+    if specOk && !provisioningOk now ignored o run then
+      specOk := false
+      if run.writes != 0 then
+        why := s!"pass {k} ({cls}): Provisioner.Schedule made {run.writes} write call(s) on the API client"
+        sig := "prov:client-writes"
+      else match provisioningOffender run with
+        | some e =>
+          let ch := (changed run.before run.after).filter (fun e => !provisioningMayChange e)
+          why := s!"pass {k} ({cls}): the pass changed more than nominations and pod bookkeeping: {showEntries ch}"
+          sig := sigOf "prov" e
+        | none =>
+          let dn := (run.valsBefore.nodes.zip run.valsAfter.nodes).filter (fun x => x.1 != x.2)
+          let dp := (run.valsBefore.pods.zip run.valsAfter.pods).filter (fun x => x.1 != x.2)
+          why := s!"pass {k} ({cls}): nominations / deletion marks / pod bookkeeping moved outside the frame of a provisioning pass (outcome: placed on {o.existing.map (·.providerID)}, errors {o.errors}, refused {ignored}); nodes before→after {repr (dn.take 3)}; pods before→after {repr (dp.take 3)}"
+          sig := "prov:values"
+    let outside := (changed run.before run.after).filter (fun e => !inFootprint fp e)
+    -- a pass that returned an error produced no results: only the refusal records of GetPendingPods can have moved
+    let predicted :=
+      if cls == "ok" then Karp.Effects.provisionPass now batch healthy ignored o run.valsBefore
+      else Karp.Effects.failedPass now ignored run.valsBefore
+    let valuesOk := run.valsAfter == predicted || (cls != "ok" && run.valsAfter == run.valsBefore)
+    if allowed && (!outside.isEmpty || !valuesOk) then
+      allowed := false
+      if specOk then
+        if !outside.isEmpty then
+          why := s!"pass {k} ({cls}): outside the footprint of the write-effect facts: {showEntries outside}"
+        else
+          let dn := (run.valsAfter.nodes.zip predicted.nodes).filter (fun x => x.1 != x.2)
+          let dp := (run.valsAfter.pods.zip predicted.pods).filter (fun x => x.1 != x.2)
+          why := s!"pass {k} ({cls}): nominations / bookkeeping differ from the model of Results.Record + MarkPodSchedulingDecisions: nodes {repr (dn.take 2)} pods {repr (dp.take 2)}"
+    k := k + 1
+  pure { allowed := some allowed, spec := some specOk, why := why,
+         extra := if sig.isEmpty then none else some (jObj [("signature", jStr sig)]) }
+
+def deepcopy (_inp impl : Json) : Except String Resp := do
+  if (fldOpt impl "snaps").isNone then
+    return { spec := some false, why := "implementation produced no snapshots (panic / harness error?)",
+             extra := some (jObj [("signature", jStr "deepcopy:no-output")]) }
+  let snaps ← listOf snap (← fld impl "snaps")
+  let before ← getIdx snaps 0 "snaps"
+  let after ← getIdx snaps 1 "snaps"
+  let copyEqual ← boolF impl "copyEqual"
+  let ch := changed before after
+  let ok := ch.isEmpty && copyEqual
+  let why :=
+    if !copyEqual then "a copy handed out by the cluster state does not show what its original shows"
+    else if !ch.isEmpty then s!"overwriting everything reachable from the copies changed the live state: {showEntries ch}"
+    else ""
+  let sig := if !copyEqual then "deepcopy:unfaithful" else match ch with | e :: _ => sigOf "deepcopy" e | [] => ""
+  -- the model: copies share nothing (C18_simulation_unobservable), so nothing may change
+  pure { allowed := some ok, spec := some ok, why := why,
+         extra := if sig.isEmpty then none else some (jObj [("signature", jStr sig)]) }
+
+def handle : Handler := fun op inp impl =>
+  match op with
+  | "c18.simulate" => simulate inp impl
+  | "c18.simdecide" => simulate inp impl
+  | "c18.provision" => provision inp impl
+  | "c18.deepcopy" => deepcopy inp impl
+  | _ => .error s!"unknown op {op}"
 
 end Karp.Driver.C18
